@@ -168,13 +168,20 @@ impl StateSpace for SO3StateSpace {
 
         let (center_rotation, max_angle) = &self.bounds;
         let actual_distance = self.distance(center_rotation, state);
-        if actual_distance < 1e-9 {
-            return;
-        }
 
-        let t = *max_angle / actual_distance;
         let original_state = state.clone();
-        self.interpolate(center_rotation, &original_state, t, state);
+        let mut t = *max_angle / actual_distance;
+        // The projection lands on the boundary of the cone only up to rounding (and up to the accuracy of
+        // the near-parallel branch of `interpolate`), i.e. possibly marginally outside it: step back by
+        // the remaining excess until the bounds check accepts the state.
+        for _ in 0..8 {
+            self.interpolate(center_rotation, &original_state, t, state);
+            if self.satisfies_bounds(state) {
+                return;
+            }
+            t *= *max_angle / self.distance(center_rotation, state) * (1.0 - 1e-12);
+        }
+        *state = center_rotation.clone();
     }
 
     /// Checks if a state is within the defined "cone of freedom" bounds.
